@@ -340,7 +340,14 @@ def tc_sites(ctx, rep, rel, rule, wanted=None, reason_scope=''):
         if not syntax:
             continue
         construct = norm(node)
-        if '.children[' in recv:
+        # `children = x.children` followed by children[i]: the same kind of receiver
+        by_index = '.children[' in recv
+        if not by_index and '[' in recv:
+            base = recv.split('[', 1)[0]
+            vals = [norm(a.value) for a in walk_own(f.node) if isinstance(a, ast.Assign)
+                    and any(isinstance(t, ast.Name) and t.id == base for t in a.targets)]
+            by_index = bool(vals) and all(v.endswith('.children') for v in vals)
+        if by_index:
             rep.skip(rule, rel, f.qual, construct, 'receiver is a child selected by index: its kind follows from the '
                                                    'shape of the parent rule (GR-10), not from a type test')
             continue
